@@ -124,6 +124,12 @@ type MultisetCombinationIterator struct {
 
 	//A buffer slice to return the value in as we iterate using FreqValue
 	value []int
+
+	//Algorithm Q needs every multiplicity to be positive so it is run on the positive entries of m only.
+	//idx[i] is the original position of the ith positive multiplicity and freq is the frequency vector in the original positions.
+	idx  []int
+	freq []int
+	done bool
 }
 
 //MultisetCombinations returns an iterator which iterates over all multisets containing k elements and with a maximum of m[i] elements of type i. Value returns the multiset of k items and FreqValue returns a slice v where v[i] is the number of i in the multiset.
@@ -136,7 +142,7 @@ func MultisetCombinations(m []int, k int) *MultisetCombinationIterator {
 func (iter MultisetCombinationIterator) Value() []int {
 	c := 0
 
-	for i, v := range iter.state {
+	for i, v := range iter.freq {
 		for j := 0; j < v; j++ {
 			iter.value[c] = i
 			c++
@@ -149,15 +155,38 @@ func (iter MultisetCombinationIterator) Value() []int {
 //FreqValue returns a slice v where v[i] is the number of i in the multiset.
 //You must not modify the return value.
 func (iter MultisetCombinationIterator) FreqValue() []int {
-	return iter.state
+	return iter.freq
 }
 
 //Next attempts to advance the iterator to the next multiset, returning true if there is one and false if not.
 //This is an implementation of Algorithm Q from The Art of Computer Programming Volume 4a section 7.2.1.3.
 func (iter *MultisetCombinationIterator) Next() bool {
+	if iter.done {
+		return false
+	}
+	if !iter.next() {
+		iter.done = true
+		return false
+	}
+	for i, v := range iter.idx {
+		iter.freq[v] = iter.state[i]
+	}
+	return true
+}
+
+func (iter *MultisetCombinationIterator) next() bool {
 	if iter.state == nil {
 		//Initial call
 		iter.value = make([]int, iter.k)
+		iter.freq = make([]int, len(iter.m))
+		positive := make([]int, 0, len(iter.m))
+		for i, v := range iter.m {
+			if v > 0 {
+				iter.idx = append(iter.idx, i)
+				positive = append(positive, v)
+			}
+		}
+		iter.m = positive
 		//Q2
 		iter.state = make([]int, len(iter.m))
 		x := iter.k
@@ -177,6 +206,11 @@ func (iter *MultisetCombinationIterator) Next() bool {
 		}
 
 		return true
+	}
+
+	if iter.k == 0 {
+		//The only multiset is the empty one.
+		return false
 	}
 
 	//Q4
